@@ -283,56 +283,143 @@ def run(ctx, report):
                                  '%s returns %s; the bits of the register outside [%d:%d) are %s' % (inst, rest, start, stop, want), where(ex, sr),
                                  witness="'mov ah, 1' lifts to a 16-bit value assigned to eax")
 
+    aff_slice_rule(ctx, R5)
+    report.analysed['instances'] = len(L.instances)
+    report.analysed['without_lifted_semantics'] = n_nosem
+    report.analysed['mnemo_func_entries'] = len(L.mnemo_func)
+
+
+
+def aff_slice_rule(ctx, R5):
+    """ExprAff.__init__ rewrites an assignment to a slice of a register into an assignment of the whole register.  The constructor is evaluated, from its source,
+    on slice destinations x kinds of source (an opaque value, a slice, a concatenation of the slice's width in 2 and in 8 pieces, a nested concatenation); the
+    result is compared *bit by bit*: bit i of the new source is bit i of the register outside [start:stop) and bit i - start of the assigned value inside.
+    A re-implementation that nests the value, splices its pieces at the right offsets or orders the slots differently gives the same bits and is accepted."""
+    from ..consteval import Evaluator, Obj, Native, NotConst, PyRaise
+    ex = ctx.mod('expression')
+    sr = ex.func('slice_rest')
+    init = ex.method('ExprAff', '__init__')
+
     def mkobj(cls, **kw):
         o = Obj(cls)
         o._class = cls
         for k, v in kw.items():
             setattr(o, k, v)
+        if 'size' in kw:
+            o.__dict__.setdefault('_methods', {})
         return o
-    cls_slice = Native(lambda arg, start, stop: mkobj('ExprSlice', arg=arg, start=start, stop=stop))
-    cls_comp = Native(lambda lst: mkobj('ExprCompose', args=lst))
-    env = {'slice_rest': sr, 'ExprSlice': cls_slice, 'ExprCompose': cls_comp}
-    env['isinstance'] = Native(lambda v, c: isinstance(v, Obj) and v.__dict__['_attrs'].get('_class') == ('ExprSlice' if c is cls_slice else 'ExprCompose' if c is cls_comp else None))
-    for size, start, stop in ((32, 0, 8), (32, 8, 16), (32, 0, 16), (32, 16, 32), (16, 8, 16), (32, 0, 1), (32, 31, 32), (64, 32, 64)):
-        reg = mkobj('ExprId', size=size)
-        src = mkobj('value')
-        me = Obj('self')
-        inst = 'ExprAff(reg%d[%d:%d], v)' % (size, start, stop)
-        try:
-            Evaluator(env).call_user(init, [me, mkobj('ExprSlice', arg=reg, start=start, stop=stop), src])
-            dstv, srcv = me.dst, me.src
-        except NotConst as e:
-            raise AnalysisError('ExprAff.__init__ is outside the evaluable subset: %s' % e)
-        problems = []
-        if dstv is not reg:
-            problems.append('destination is not the sliced register itself')
-        parts = getattr(srcv, 'args', None) if isinstance(srcv, Obj) and srcv.__dict__['_attrs'].get('_class') == 'ExprCompose' else None
-        if parts is None:
-            problems.append('source is not a concatenation')
-        else:
-            pos = 0
-            for e_, a_, b_ in parts:
-                if a_ != pos:
-                    problems.append('slot [%d:%d) does not start where the previous one ends (%d)' % (a_, b_, pos))
-                    break
-                if (a_, b_) == (start, stop):
-                    if e_ is not src:
-                        problems.append('slot [%d:%d) does not hold the assigned value' % (a_, b_))
-                else:
-                    c_ = e_.__dict__['_attrs'] if isinstance(e_, Obj) else {}
-                    if not (c_.get('_class') == 'ExprSlice' and c_.get('arg') is reg and (c_.get('start'), c_.get('stop')) == (a_, b_)):
-                        problems.append('slot [%d:%d) is not the unchanged bits reg[%d:%d]' % (a_, b_, a_, b_))
-                pos = b_
-            if not problems and pos != size:
-                problems.append('the slots cover [0:%d) of a %d-bit register' % (pos, size))
-        if problems:
-            R5.violation(inst, 'aff-slice:%s' % '; '.join(problems)[:90], '%s: %s' % (inst, '; '.join(problems)), where(ex, init))
-        else:
-            R5.ok(inst, sample='%s -> reg = Compose(unchanged low bits, v, unchanged high bits), slots tile [0:%d)' % (inst, size))
-    report.analysed['instances'] = len(L.instances)
-    report.analysed['without_lifted_semantics'] = n_nosem
-    report.analysed['mnemo_func_entries'] = len(L.mnemo_func)
 
+    def cls_of(v):
+        return v.__dict__['_attrs'].get('_class') if isinstance(v, Obj) else None
+
+    def size_of(v):
+        c = cls_of(v)
+        a = v.__dict__['_attrs']
+        if c == 'ExprSlice':
+            return a['stop'] - a['start']
+        if c == 'ExprCompose':
+            return max(p[2] for p in a['args'])
+        return a['size']
+
+    def bits(v):
+        """provenance of every bit of v, low bit first: (leaf object id, bit number)"""
+        c = cls_of(v)
+        a = v.__dict__['_attrs']
+        if c == 'ExprSlice':
+            return bits(a['arg'])[a['start']:a['stop']]
+        if c == 'ExprCompose':
+            n_ = max(p[2] for p in a['args'])
+            out = [None] * n_
+            for e_, lo, hi in a['args']:
+                b_ = bits(e_)
+                if len(b_) != hi - lo:
+                    raise ValueError('slot [%d:%d) holds a %d-bit value' % (lo, hi, len(b_)))
+                for i in range(lo, hi):
+                    if out[i] is not None:
+                        raise ValueError('bit %d is covered twice' % i)
+                    out[i] = b_[i - lo]
+            if any(x is None for x in out):
+                raise ValueError('bit %d is not covered' % out.index(None))
+            return out
+        return [(a['name'], i) for i in range(a['size'])]
+    cls_slice = Native(lambda arg, start, stop: mkobj('ExprSlice', arg=arg, start=start, stop=stop))
+    cls_comp = Native(lambda lst: mkobj('ExprCompose', args=list(lst)))
+    size_native = Native(lambda self_: size_of(self_))
+    env = {'slice_rest': sr, 'ExprSlice': cls_slice, 'ExprCompose': cls_comp}
+    known = {'ExprSlice': cls_slice, 'ExprCompose': cls_comp}
+    for cname in ('ExprId', 'ExprInt', 'ExprMem', 'ExprOp', 'ExprCond'):
+        known[cname] = env[cname] = Native(lambda *a, **k: (_ for _ in ()).throw(NotConst('constructor in ExprAff.__init__')))
+
+    def isinst(v, c):
+        cs = c if isinstance(c, tuple) else (c,)
+        for c_ in cs:
+            for nm, nat in known.items():
+                if c_ is nat and cls_of(v) == nm:
+                    return True
+        return False
+    env['isinstance'] = Native(isinst)
+
+    def leaf(name, size, cls='ExprId'):
+        o = mkobj(cls, name=name, size=size)
+        o.__dict__['_attrs']['get_size'] = size_native_for(o)
+        return o
+
+    def size_native_for(o):
+        return Native(lambda: size_of(o))
+
+    def with_size(o):
+        o.__dict__['_attrs']['get_size'] = size_native_for(o)
+        return o
+
+    def sources(w):
+        v = leaf('v', w, 'ExprOp')
+        yield 'a value', v
+        big = leaf('s', 64)
+        yield 'a slice', with_size(mkobj('ExprSlice', arg=big, start=8, stop=8 + w))
+        if w >= 2:
+            h = w // 2
+            yield 'a concatenation of two pieces', with_size(mkobj('ExprCompose', args=[(leaf('p', h, 'ExprOp'), 0, h), (leaf('q', w - h, 'ExprOp'), h, w)]))
+        if w >= 8:
+            pieces, pos = [], 0
+            for i in range(8):
+                hi = (w * (i + 1)) // 8
+                pieces.append((leaf('f%d' % i, hi - pos, 'ExprOp'), pos, hi))
+                pos = hi
+            yield 'a concatenation of eight pieces', with_size(mkobj('ExprCompose', args=pieces))
+            h = w // 2
+            inner = with_size(mkobj('ExprCompose', args=[(leaf('p', h // 2, 'ExprOp'), 0, h // 2), (leaf('q', h - h // 2, 'ExprOp'), h // 2, h)]))
+            yield 'a nested concatenation', with_size(mkobj('ExprCompose', args=[(inner, 0, h), (leaf('r', w - h, 'ExprOp'), h, w)]))
+    for size, start, stop in ((32, 0, 8), (32, 8, 16), (32, 0, 16), (32, 16, 32), (16, 8, 16), (32, 0, 1), (32, 31, 32), (64, 32, 64), (32, 4, 12)):
+        for what, src in sources(stop - start):
+            reg = leaf('reg', size)
+            me = Obj('self')
+            inst = 'ExprAff(reg%d[%d:%d], %s)' % (size, start, stop, what)
+            try:
+                Evaluator(env).call_user(init, [me, with_size(mkobj('ExprSlice', arg=reg, start=start, stop=stop)), src])
+                dstv, srcv = me.dst, me.src
+            except PyRaise as e:
+                R5.violation(inst, 'aff-slice:raises:%s:%s' % (e.exc_name, what), '%s raises %s' % (inst, e.exc_name), where(ex, init))
+                continue
+            except NotConst as e:
+                raise AnalysisError('ExprAff.__init__ is outside the evaluable subset: %s' % e)
+            problems = []
+            if dstv is not reg:
+                problems.append('destination is not the sliced register itself')
+            try:
+                got = bits(srcv)
+                want = bits(reg)[:start] + bits(src) + bits(reg)[stop:]
+                if len(got) != size:
+                    problems.append('the new source has %d bits, the register %d' % (len(got), size))
+                elif got != want:
+                    i = [k for k in range(size) if got[k] != want[k]][0]
+                    problems.append('bit %d of the new source is bit %d of %s; it must be bit %d of %s' % (i, got[i][1], got[i][0], want[i][1], want[i][0]))
+            except ValueError as e:
+                problems.append('the new source is not a tiling: %s' % e)
+            if problems:
+                R5.violation(inst, 'aff-slice:%s:%s' % (what, 'low' if start == 0 else 'high' if stop == size else 'middle'), '%s: %s' % (inst, '; '.join(problems)), where(ex, init),
+                             witness="'lahf' (9f): ah receives a concatenation of the flags" if 'concatenation' in what else None)
+            else:
+                R5.ok(inst, sample='%s -> every bit of the new source is the register bit outside [%d:%d) and the value bit inside' % (inst, start, stop))
 
 MUTANTS = [
     ('float-pop-32bit-zero', 'miasmx/arch/ia32_sem.py', "        if src is None: src = ExprInt64(0)", "        if src is None: src = ExprInt32(0)", 'C11.D3'),
